@@ -743,16 +743,29 @@ func (multi *MultiEpoch) processSlotTransactions(
 	gsfaReadersLoaded bool,
 ) error {
 
+	if filter != nil {
+		// The account lists come from the client: reject malformed keys here (they are parsed with
+		// MustPublicKeyFromBase58 below, also inside goroutines, where a panic would take the server down).
+		for _, accounts := range [][]string{filter.AccountInclude, filter.AccountExclude, filter.AccountRequired} {
+			for _, acc := range accounts {
+				if _, err := solana.PublicKeyFromBase58(acc); err != nil {
+					return status.Errorf(codes.InvalidArgument, "invalid account %q in filter: %v", acc, err)
+				}
+			}
+		}
+	}
+
 	filterOutTxn := func(tx solana.Transaction, meta any) bool {
 		if filter == nil {
 			return true
 		}
 
-		if !(*filter.Vote) && IsSimpleVoteTransaction(&tx) { // If vote is false, we should filter out vote transactions
+		// NOTE: vote and failed are optional fields: when absent, nothing is filtered out on that criterion.
+		if filter.Vote != nil && !(*filter.Vote) && IsSimpleVoteTransaction(&tx) { // If vote is false, we should filter out vote transactions
 			return false
 		}
 
-		if !(*filter.Failed) { // If failed is false, we should filter out failed transactions
+		if filter.Failed != nil && !(*filter.Failed) { // If failed is false, we should filter out failed transactions
 			// NOTE: a transaction without metadata is not known to have failed (same outcome whether the
 			// transaction comes from the block or from the gsfa index).
 			if meta != nil && getErr(meta) != nil {
